@@ -798,3 +798,26 @@ func (t *Table) resumeAfterMissingStartKey(index *index, startKey string, exclus
 		return order < 0
 	}
 }
+
+// ValidatePut checks, without changing anything, that Put would accept the item: the primary key
+// attributes are present with the declared types and so are the index key attributes it carries
+func (t *Table) ValidatePut(item map[string]*types.Item) error {
+	if _, err := t.KeySchema.GetKey(t.AttributesDef, item); err != nil {
+		return types.NewError("ValidationException", err.Error(), nil)
+	}
+
+	if err := t.validateIndexKeys(item); err != nil {
+		return types.NewError("ValidationException", err.Error(), nil)
+	}
+
+	return nil
+}
+
+// ValidateKey checks that the key carries the primary key attributes with the declared types
+func (t *Table) ValidateKey(key map[string]*types.Item) error {
+	if _, err := t.KeySchema.GetKey(t.AttributesDef, key); err != nil {
+		return types.NewError("ValidationException", err.Error(), nil)
+	}
+
+	return nil
+}
